@@ -28,12 +28,13 @@ def emit(ev):
     sys.stdout.write(json.dumps(ev, separators=(",", ":")) + "\n")
 
 
-def ctext(t):
+def ctext(t, top=False):
     if t[0] == "par":
         return t[1]
     if t[0] == "const":
         return repr(float(t[1]))
-    return "(%s %s %s)" % (ctext(t[1]), t[0], ctext(t[2]))
+    text = "%s %s %s" % (ctext(t[1]), t[0], ctext(t[2]))
+    return text if top else "(%s)" % text          # the right-hand side as a whole is written without parentheses
 
 
 def pyeval(t, env):
@@ -93,12 +94,21 @@ def run(sc, workdir):
             removed = vols + [p for p in removed if p not in vols]
             kept = [p for p in sel if p not in removed]
         typ = removed[0].type
+    vregion = sc.get("directed") == "valid-region"
+    if vregion:
+        # the first parameter of the base's validity expression is the one that is replaced first
+        removed = [sel[0]] + [p for p in removed if p is not sel[0]]
+        if len(removed) >= len(sel) and len(sel) > 1:
+            removed = removed[:-1]
+        kept = [p for p in sel if p not in removed]
     b0 = {p.id: float(p.default) for p in removed}
     assign = []
     xvals = {}
     form = rng.choice(["affine", "product", "quotient", "intermediate"])
     if directed:
         form = "intermediate"
+    if vregion:
+        form = "affine"
     if samename and len(removed) == 1:
         # a new parameter may keep the name of the base parameter it replaces (a change of unit, say); only with a
         # single replaced parameter, so that no later line of the translation refers to the reused name
@@ -113,6 +123,9 @@ def run(sc, workdir):
         if n2:
             xvals[n1], xvals[n2] = v / (2 * c1), v
             assign.append({"lhs": first, "expr": ["+", ["*", ["const", fstr(c1)], ["par", n1]], ["*", ["const", "0.5"], ["par", n2]]]})
+        elif vregion:
+            xvals[n1] = (v - 1.0) / c1
+            assign.append({"lhs": first, "expr": ["+", ["*", ["const", fstr(c1)], ["par", n1]], ["const", "1.0"]]})
         else:
             xvals[n1] = v / c1
             assign.append({"lhs": first, "expr": ["*", ["const", fstr(c1)], ["par", n1]]})
@@ -141,7 +154,7 @@ def run(sc, workdir):
                                                  ["*", ["const", "0.0"], ["par", kept[0].id]]]})
         else:
             assign.append({"lhs": p.id, "expr": ["*", ["const", fstr(c)], src]})
-    translation = "\n".join("%s = %s" % (a["lhs"], ctext(a["expr"])) for a in assign)
+    translation = "\n".join("%s = %s" % (a["lhs"], ctext(a["expr"], top=True)) for a in assign)
     new_defs = [[nid, "", xvals[nid], [0, np.inf], typ if typ in ("volume", "sld") else "", "new parameter"] for nid in newids]
     # ---- insert_after from the shape (keys mapped to concrete ids)
     ia = None
@@ -280,7 +293,7 @@ def run(sc, workdir):
         assign2 = copy.deepcopy(assign)
         assign2[-1 if len(removed) == 1 else [a["lhs"] for a in assign2].index(first)]["expr"] = \
             ["*", ["const", "0.5"], assign[[a["lhs"] for a in assign].index(first)]["expr"]]
-        translation2 = "\n".join("%s = %s" % (a["lhs"], ctext(a["expr"])) for a in assign2)
+        translation2 = "\n".join("%s = %s" % (a["lhs"], ctext(a["expr"], top=True)) for a in assign2)
         try:
             dinfo2 = core.reparameterize(base_info, new_defs, translation2, filename=os.path.join(workdir, name + ".py"),
                                          insert_after=ia, name=name)
